@@ -151,10 +151,37 @@ def quartet_orientation_case(run, specs, tag="random"):
     return ok
 
 
+def braket_swap_case(run, specs, tag):
+    """(ab|cd) against the independently computed (cd|ab) only — for quartets with exponents beyond the published range, where the
+    two orderings *within* a pair differ in accuracy already on the unchanged code, but the bra-ket exchange is exact"""
+    from gbasis.integrals.electron_repulsion import ElectronRepulsionIntegral as E
+    sh = [s_.copy(sph=False).make() for s_ in specs]
+    x = E.construct_array_contraction(sh[0], sh[1], sh[2], sh[3])
+    y = E.construct_array_contraction(sh[2], sh[3], sh[0], sh[1]).transpose(4, 5, 6, 7, 0, 1, 2, 3)
+    run.case(("braket-swap", tag) + sig(specs))
+    run.count("bra-ket exchange " + tag)
+    sc = float(np.abs(y).max())
+    if x.shape != y.shape or np.abs(x - y).max() > 1e-10 * sc + 1e-300:
+        run.violation(f"(ab|cd) differs from the independently computed (cd|ab) by {np.abs(x - y).max() / max(sc, 1e-300):.3e} of the largest element",
+                      {"case": "braket-swap", "basis": core.describe_basis(specs), "signature": {"kind": "eri-braket-swap"}})
+        return False
+    return True
+
+
 def check(run):
     rng = run.rng
     quick = run.tier == "quick"
     cheap = [n for n, v in pf.FUNCS.items() if v[2] <= 2]
+    # class-level lincomb with a one-string coord_type list in several listing orders (documented: the string applies to every shell)
+    from checks import c09 as _c09
+    _c09.single_string_types_case(run, rng)
+    for k, (lt, et) in enumerate([(3, 2.0e4), (4, 3.0e3), (3, 3.0e3)] if quick else [(3, 2.0e4), (4, 3.0e3), (3, 3.0e3), (2, 1.0e5), (4, 1.0e2), (3, 1.0e2)]):
+        tight = ShellSpec(lt, [0.0, 0.0, 0.0], [et], [[1.0]])
+        diffuse = ShellSpec(0, [0.9, -0.5, 0.7], [0.1], [[1.0]])
+        c_ = ShellSpec(0, [-0.4, 0.6, 0.3], [0.8], [[1.0]])
+        d_ = ShellSpec(1, [0.5, 0.5, -0.6], [1.2], [[1.0]])
+        braket_swap_case(run, [tight, diffuse, c_, d_], "very tight high-l shell with a diffuse partner")
+        braket_swap_case(run, [diffuse, tight, d_, c_], "very tight high-l shell with a diffuse partner")
     for k in range(4 if quick else 20):
         n = 2 + k % (3 if quick else 4)
         cs = []
@@ -264,6 +291,11 @@ def replay(run, rep):
         eightfold_case(run, specs)
     elif rep["case"] == "orient2":
         block_orientation_case(run, specs[0], specs[1])
+    elif rep["case"] == "single-string-types":
+        from checks import c09 as _c09
+        _c09.single_string_types_case(run, rng)
+    elif rep["case"] == "braket-swap":
+        braket_swap_case(run, specs, "replay")
     else:
         quartet_orientation_case(run, specs)
     return len(run.violations) == n0
